@@ -215,4 +215,26 @@ def big_merge():
     b.g2(away[1], fresh, "cphase")
     b.meas(fresh, False, True)
     b.meas(away[0], False, False)
-    return [("big_merge_beyond_default_register_size", caps, b.sym())]
+    out = [("big_merge_beyond_default_register_size", caps, b.sym())]
+    # the same locally: everything at one node; a fresh one-qubit register absorbs a 10-qubit register and vice versa, then refusals on
+    # the big register (identical operands) and measurements: nothing may stay locked, the merge must not be refused
+    b = B()
+    caps = [(14, 14), (4, 8)]
+    first = [b.new(0) for _ in range(10)]
+    b.g1(first[0], "H")
+    for q in first[1:]:
+        b.g2(first[0], q, "cnot")               # 10-qubit register at node 0
+    f1 = b.new(0)
+    b.g1(f1, "H")
+    b.g2(f1, first[3], "cnot")                  # control in the one-qubit register, target in the 10-qubit register
+    b.g1(first[5], "X")
+    b.g2(first[2], first[7], "cphase")
+    f2 = b.new(0)
+    b.g2(first[4], f2, "cnot")                  # control in the 11-qubit register, target fresh
+    b.meas(first[5], False, False)
+    b.meas(f1, False, True)
+    b.g1(first[9], "Z")
+    moved = b.send(first[9], 1)
+    b.g1(moved, "H")
+    out.append(("big_local_merge_beyond_default_register_size", caps, b.sym()))
+    return out
